@@ -5,12 +5,16 @@
 package node
 
 import (
+	"bytes"
 	"context"
+	"encoding/binary"
 	"errors"
 	"fmt"
+	"hash/crc32"
 	"io/ioutil"
 	"net"
 	"os"
+	"path/filepath"
 	"strings"
 	"sync"
 	"time"
@@ -65,6 +69,16 @@ func NewWorld(r *rec.Recorder) *World {
 		Topics: map[string][]string{}, cnt: map[string]int{}, cntCh: make(chan struct{}, 1)}
 	wasp.VerifHook = w.hook
 	return w
+}
+
+// PayloadID is how payloads appear in traces: short payloads verbatim; padded ones ("id|xxxx") as
+// "id#<length>:<crc32>", which still identifies the message and proves the padding intact.
+func PayloadID(b []byte) string {
+	i := bytes.IndexByte(b, '|')
+	if i < 0 {
+		return string(b)
+	}
+	return fmt.Sprintf("%s#%d:%08x", b[:i], len(b), crc32.ChecksumIEEE(b))
 }
 
 func (w *World) Ms(t time.Time) int64 { return int64(t.Sub(w.Epoch) / time.Millisecond) }
@@ -195,10 +209,35 @@ func (t netTransport) Call(id uint64, f func(*grpc.ClientConn) error) error {
 	return err
 }
 
-func (w *World) AddNode(id int) (*Node, error) {
+// Prefill describes a message log that already holds entries (and a consumer offset) when the node starts.
+type Prefill struct {
+	Count    int
+	Consumed int
+}
+
+func (w *World) AddNode(id int) (*Node, error) { return w.AddNodePrefilled(id, nil) }
+
+func (w *World) AddNodePrefilled(id int, pre *Prefill) (*Node, error) {
 	dir, err := ioutil.TempDir("", fmt.Sprintf("waspnode%d-", id))
 	if err != nil {
 		return nil, err
+	}
+	if pre != nil {
+		l, err := messages.New(dir)
+		if err != nil {
+			return nil, err
+		}
+		for i := 0; i < pre.Count; i++ {
+			if err := l.Append(&packet.Publish{Header: &packet.Header{}, Topic: []byte("_prefill/x"), Payload: []byte(fmt.Sprintf("pre-%d", i))}); err != nil {
+				return nil, err
+			}
+		}
+		l.Close()
+		buf := make([]byte, 8)
+		binary.BigEndian.PutUint64(buf, uint64(pre.Consumed))
+		if err := ioutil.WriteFile(filepath.Join(dir, "publish_distributor.state"), buf, 0650); err != nil {
+			return nil, err
+		}
 	}
 	n := &Node{W: w, ID: id, Dir: dir, failRPC: map[int]bool{}}
 	ctx := wasp.StoreLogger(context.Background(), zap.NewNop())
@@ -208,6 +247,13 @@ func (w *World) AddNode(id int) (*Node, error) {
 		return nil, err
 	}
 	n.Log = &logWrap{n: n, real: real}
+	if pre != nil {
+		n.Log.next = uint64(pre.Count)
+		n.Log.appended = pre.Count - pre.Consumed // the consumer re-reads from the stored offset (inclusive)
+		if pre.Count == 0 {
+			n.Log.appended = 0
+		}
+	}
 	n.Bcast = &memberlist.TransmitLimitedQueue{RetransmitMult: 1, NumNodes: func() int { return 1 }}
 	n.Local = &localState{n: n, real: wasp.NewState(uint64(id))}
 	n.State = distributed.NewState(uint64(id), n.Bcast, audit.NoneRecorder())
@@ -340,7 +386,7 @@ func (l *logWrap) Append(p *packet.Publish) error {
 		l.appended++
 	}
 	mount, lv := l.n.W.SplitMounted(string(p.Topic))
-	l.n.W.R.Emit(rec.Ev{"op": "log.append", "n": l.n.ID, "off": off, "mount": mount, "t": lv, "p": string(p.Payload), "q": p.Header.Qos,
+	l.n.W.R.Emit(rec.Ev{"op": "log.append", "n": l.n.ID, "off": off, "mount": mount, "t": lv, "p": PayloadID(p.Payload), "q": p.Header.Qos,
 		"r": p.Header.Retain, "ok": err == nil})
 	return err
 }
@@ -399,7 +445,7 @@ var ackNames = map[string]string{"puback": "PUBACK", "pubrec": "PUBREC", "pubrel
 func (q *queueWrap) Insert(prefix string, pkt packet.Packet, deadline time.Time, cb ack.Callback) error {
 	q.mu.Lock()
 	q.tag++
-	tag := q.tag
+	tag := q.n.ID*1000000 + q.tag // unique across the nodes of a scenario
 	q.mu.Unlock()
 	kind, id := kindOf(pkt)
 	wrapped := func(expired bool, stored, received packet.Packet) {
@@ -452,6 +498,14 @@ func (w *World) Open(c int, nodeID int) *Client {
 	k := w.Clock.NewConn(c)
 	cl.Conn = k
 	k.OnWrite = cl.onWrite
+	k.WriteGate = func([]byte) {
+		cl.mu.Lock()
+		h := cl.hold
+		cl.mu.Unlock()
+		if h != nil {
+			<-h
+		}
+	}
 	k.OnClose = func() {
 		cl.mu.Lock()
 		cl.closed = true
@@ -467,6 +521,19 @@ func (w *World) Open(c int, nodeID int) *Client {
 	w.R.Emit(rec.Ev{"op": "conn.open", "c": c, "n": nodeID, "s": fmt.Sprintf("s%d", c)})
 	go n.Mgr.Setup(n.ctx, transport.Metadata{Name: "vpipe", RemoteAddress: fmt.Sprintf("c%d", c), Channel: k})
 	return cl
+}
+
+// SetGate closes or opens the client's receive gate: while closed, the broker's writes to this
+// connection block (a slow consumer), which makes the writer lag behind the log consumer.
+func (cl *Client) SetGate(closed bool) {
+	cl.mu.Lock()
+	defer cl.mu.Unlock()
+	if closed && cl.hold == nil {
+		cl.hold = make(chan struct{})
+	} else if !closed && cl.hold != nil {
+		close(cl.hold)
+		cl.hold = nil
+	}
 }
 
 func (w *World) poke() {
@@ -502,7 +569,7 @@ func (cl *Client) onWrite(b []byte) {
 			ev["code"] = p.Code
 		case mq.PUBLISH:
 			ev["t"] = cl.W.Levels(p.Topic)
-			ev["p"] = string(p.Payload)
+			ev["p"] = PayloadID(p.Payload)
 			ev["q"] = p.QoS
 			ev["r"] = p.Retain
 			ev["dup"] = p.Dup
